@@ -133,7 +133,7 @@ func (w *World) AddEngine(spec gen.EngineSpec) (int, error) {
 
 func (w *World) Close() {
 	for _, e := range w.Eng {
-		ctx, cancel := context.WithTimeout(context.Background(), 30*time.Second)
+		ctx, cancel := context.WithTimeout(context.Background(), core.Patience)
 		e.Stop(ctx)
 		cancel()
 	}
@@ -227,7 +227,7 @@ func (w *World) IngestSync(ei int, batches [][]*RowRec) error {
 	if _, err := w.ingestNoFlush(ei, batches); err != nil {
 		return err
 	}
-	ctx, cancel := context.WithTimeout(context.Background(), 60*time.Second)
+	ctx, cancel := context.WithTimeout(context.Background(), core.Patience)
 	defer cancel()
 	if err := w.Eng[ei].Flush(ctx); err != nil {
 		return fmt.Errorf("flush: %w", err)
@@ -268,7 +268,7 @@ func (w *World) settlePending() error {
 			for _, r := range p.recs {
 				r.Count++
 			}
-		case <-time.After(60 * time.Second):
+		case <-time.After(core.Patience):
 			return errors.New("batch not answered 60s after Flush returned")
 		}
 	}
